@@ -159,6 +159,88 @@ def classify(fs_expr, lv_expr, bs_expr, fexp, bexp, problem):
     return 'C01/field=%s/box=%s/%s' % (fclass(fs_expr), bclass(bs_expr), problem)
 
 
+STREAM_REPLAY = '''
+import tempfile, shutil, contextlib, io
+from amr_kitchen import PlotfileCooker
+# one level, 17 boxes of 256 x 256 x 64 cells, two fields, one sparse binary file: the 17th FAB starts beyond 2^31 bytes and holds 7.0 in
+# the first cell of its second field
+FAB = "FAB ((8, (64 11 52 0 1 12 0 1023)),(8, (8 7 6 5 4 3 2 1)))"
+NX, NY, NZ, NB, NF = 256, 256, 64, 17, 2
+DX = 1.0 / 256
+def idx(i):
+    return (0, 0, i * NZ), (NX - 1, NY - 1, (i + 1) * NZ - 1)
+def hdr(i):
+    lo, hi = idx(i)
+    return (FAB + "((" + ",".join(map(str, lo)) + ") (" + ",".join(map(str, hi)) + ") (0,0,0)) %d\\n" % NF).encode()
+top = tempfile.mkdtemp(prefix="c01big_")
+RESULT = 1.0
+try:
+    path = os.path.join(top, "plt")
+    os.makedirs(os.path.join(path, "Level_0"))
+    with open(os.path.join(path, "Header"), "w") as h:
+        h.write("HyperCLaw-V1.1\\n2\\nu\\nv\\n3\\n0.5\\n0\\n0.0 0.0 0.0\\n%r %r %r\\n\\n" % (NX * DX, NY * DX, NB * NZ * DX))
+        h.write("((0,0,0) (%d,%d,%d) (0,0,0))\\n7\\n%r %r %r\\n0\\n0\\n0 %d 0.5\\n7\\n" % (NX - 1, NY - 1, NB * NZ - 1, DX, DX, DX, NB))
+        for i in range(NB):
+            lo, hi = idx(i)
+            for d in range(3):
+                h.write("%r %r\\n" % (lo[d] * DX, (hi[d] + 1) * DX))
+        h.write("Level_0/Cell\\n")
+    offs = []
+    with open(os.path.join(path, "Level_0", "Cell_D_00000"), "wb") as bf:
+        for i in range(NB):
+            offs.append(bf.tell())
+            bf.write(hdr(i))
+            start = bf.tell()
+            if i == NB - 1:
+                bf.seek(start + NX * NY * NZ * 8)
+                bf.write(np.array([7.0]).tobytes())
+            bf.seek(start + NF * NX * NY * NZ * 8)
+        bf.truncate(bf.tell())
+    with open(os.path.join(path, "Level_0", "Cell_H"), "w") as c:
+        c.write("1\\n1\\n%d\\n0\\n(%d 0\\n" % (NF, NB))
+        for i in range(NB):
+            lo, hi = idx(i)
+            c.write("((" + ",".join(map(str, lo)) + ") (" + ",".join(map(str, hi)) + ") (0,0,0))\\n")
+        c.write(")\\n%d\\n" % NB + "".join("FabOnDisk: Cell_D_00000 %d\\n" % o for o in offs))
+        zero = "0.0000000000000000e+00,0.0000000000000000e+00,\\n"
+        c.write("\\n%d,%d\\n" % (NB, NF) + zero * NB + "\\n%d,%d\\n" % (NB, NF) + zero * (NB - 1) + "0.0000000000000000e+00,7.0000000000000000e+00,\\n")
+    assert offs[-1] >= 2 ** 31
+    with contextlib.redirect_stdout(io.StringIO()), contextlib.redirect_stderr(io.StringIO()):
+        pck = PlotfileCooker(path)
+        one = pck["v"][0][NB - 1]
+        two = pck["v"][0][[NB - 1, 0]]
+    assert one.shape == (NX, NY, NZ) and one[0, 0, 0] == 7.0 and one[1, 0, 0] == 0.0, "box %d read through its offset %d" % (NB - 1, offs[-1])
+    assert two[0][0, 0, 0] == 7.0 and two[1][0, 0, 0] == 0.0, "list selection of boxes"
+finally:
+    shutil.rmtree(top, ignore_errors=True)
+'''
+
+
+def stream_positions(mods, ctx, obl):
+    """The selector object between the level header's byte positions and the read kernels (whose seek arithmetic K-read decides for
+    symbolic positions): LevelDataStream built on three symbolic positions 0 <= p <= 2^40, its read function recorded; every form of
+    box selection must hand each box's own position to the read function, unchanged."""
+    pc = mods['amr_kitchen.plotfile_cooker']
+    offs = [core.integer('fabpos%d' % i) for i in range(3)]
+    for o in offs:
+        ctx.assume(o.t >= 0)
+        ctx.assume(o.t <= 2 ** 40)
+    seen = []
+    with patch.Patched(mods, SymFS()), common.quiet():
+        ds = pc.LevelDataStream(['Cell_D_00000', 'Cell_D_00001', 'Cell_D_00000'], offs, 0)
+        ds.read_fun = lambda a: seen.append(a) or 0
+        ds[1]
+        ds[-1]
+        ds[0:3]
+        ds[[2, 0]]
+        ds[np.array([False, True, True])]
+    order = [1, 2, 0, 1, 2, 2, 0, 1, 2]
+    if not obl.holds(len(seen) == len(order), 'LevelDataStream: %d reads for 9 selected boxes' % len(seen)):
+        return
+    for (bf, off, farg), i in zip(seen, order):
+        obl.equal(off, offs[i], 'LevelDataStream on byte positions up to 2^40: the position handed to the read function for box %d' % i)
+
+
 def run_case(case):
     res = CaseResult()
     mods = common.mods()
@@ -341,6 +423,21 @@ def run_case(case):
     res['canaries'] += 1
     if cres and cres[0][1].failed:
         res['canaries_fired'] += 1
+    if case.get('positions'):
+        # once per run: the magnitude of byte positions (nothing of it depends on the structure)
+        def spath(ctx):
+            obl = Obl(ctx)
+            try:
+                stream_positions(mods, ctx, obl)
+            except Exception as e:
+                obl.fail('LevelDataStream on byte positions up to 2^40 raised %s: %s' % (type(e).__name__, str(e)[:120]))
+            return obl
+        results, exhaustive, stats = core.explore(spath, max_paths=8)
+        res.add_explore(results, exhaustive, stats)
+        for ctx, obl in results:
+            res.add_obl(obl)
+            if obl.failed and not ctx.flags:
+                viol.setdefault('C01/position-magnitude', {'signature': 'C01/position-magnitude', 'what': obl.failed[0][0][:400], 'big': True})
     res['distinct'] = ['%s/%d' % (case['label'], i) for i in range(min(len(combos), 50))]
     res['extra'] = {'selector_calls': len(combos)}
     res['sample'] = {'structure': ref.describe(), 'selector_calls': len(combos), 'example_call': list(combos[len(combos) // 2])}
@@ -349,7 +446,11 @@ def run_case(case):
         from harness import replay_lib
         if not common.claim('C01', sig):
             continue            # another worker replays this class
-        d, status, out = common.replay_portfolio(lambda: replay_lib.make_c01_replay(ref, v))
+        if v.get('big'):
+            # replayed where conversions of positions differ: a sparse binary file beyond 2^31 bytes (scratch directory removed by the replay)
+            d, status, out = common.replay_portfolio(lambda: replay_lib.make_tool_replay('C01', sig, v['what'], {}, STREAM_REPLAY, {'kind': 'value', 'close': 1.0}))
+        else:
+            d, status, out = common.replay_portfolio(lambda: replay_lib.make_c01_replay(ref, v))
         v['replay'] = d
         if status == 'reproduced':
             res['violations'].append(v)
@@ -405,6 +506,7 @@ def cases():
         m.name = 'rand%d-%dd' % (r, nd)
         out.append({'label': m.name, 'mesh': m, 'fields': rnd.choice(fsets), 'layout': families.scatter_layouts(m, rnd, 3),
                     'geom': rnd.randrange(3)})
+    out[0]['positions'] = True        # the position-magnitude block runs once, with the first case
     return out
 
 
